@@ -2,7 +2,9 @@
    produced by harness/h_integer.cpp and reports disagreements. -/
 import Driver.Common
 import Driver.IntegerTable
+import Driver.IntegerAliasTable
 -- @driver-mode integer Driver.integerLine
+-- @driver-mode integer_alias Driver.integerAliasLine
 namespace Driver
 open Givaro Givaro.Gen
 
@@ -11,14 +13,14 @@ def showRes (r : Res) : String :=
 
 /-- per line: "OK" | "PRE" (precondition false: not an admissible input) |
     "DIFF kind=… model=… | line" where kind ∈ {MODEL, SPEC, BOTH} | "BAD …" -/
-def integerLine (line : String) : String :=
+def entryLine (entry : String → Array Int → Option (Bool × Res × (Res → Bool) × String)) (line : String) : String :=
   match splitLine line with
   | none => "BAD empty"
   | some (key, args, res) =>
     match parseAll args with
     | none => "BAD args | " ++ line
     | some a =>
-      match integerEntry key a.toArray with
+      match entry key a.toArray with
       | none => "BAD nofunc | " ++ line
       | some (pre, model, chk, mode) =>
         if !pre then "PRE" else
@@ -44,5 +46,9 @@ def integerLine (line : String) : String :=
           else
             let kind := if !specOk && !modelOk then "BOTH" else if !specOk then "SPEC" else "MODEL"
             s!"DIFF kind={kind} model={showRes model} modelMeetsSpec={modelSpecOk} | {line.trimAscii.toString}"
+
+def integerLine (line : String) : String := entryLine integerEntry line
+/-- C15: the same overloads called with aliased arguments; the model is the body re-executed with shared locations -/
+def integerAliasLine (line : String) : String := entryLine integerAliasEntry line
 
 end Driver
